@@ -297,18 +297,17 @@ def userinfo (netloc : Str) : Option Str × Option Str :=
      | (u, false, _) => (some u, none))
   | _ => (none, none)
 
+/-- `_hostinfo` before `if not port: port = None`: (hostname text, port text) of the part after '@' -/
+def hostinfoRaw (hi : Str) : Str × Str :=
+  match partition '[' hi with
+  | (_, true, bracketed) =>
+    ((partition ']' bracketed).1, (partition ':' (partition ']' bracketed).2.2).2.2)
+  | _ => ((partition ':' hi).1, (partition ':' hi).2.2)
+
 /-- `_hostinfo`: (hostname text, port text or None) -/
 def hostinfo (netloc : Str) : Str × Option Str :=
-  let hi := (rpartition '@' netloc).2.2
-  let (h, port) :=
-    match partition '[' hi with
-    | (_, true, bracketed) =>
-      let (h, _, rest) := partition ']' bracketed
-      (h, (partition ':' rest).2.2)
-    | _ =>
-      let (h, _, port) := partition ':' hi
-      (h, port)
-  (h, if port = [] then none else some port)
+  let r := hostinfoRaw (rpartition '@' netloc).2.2
+  (r.1, if r.2 = [] then none else some r.2)
 
 /-- `.hostname`: None when empty; lower-cased up to a '%' (zone id) -/
 def hostnameOf (h : Str) : Option Str :=
